@@ -64,6 +64,9 @@ type fnSpec struct {
 	name string // function (or Recv.Method)
 	inst map[string]string // type parameter -> the Go type it is instantiated with in this translation
 	ids  []string          // type parameters that are also passed as abstract type ids (reflect.TypeOf)
+	from string            // translate only the TAIL of the body: from the first top-level statement whose source text starts with this
+	vars map[string]string // ... and the variables the skipped part declares that the tail uses: name -> Go type
+	ptypes map[string]string // parameters translated at another Go type than declared (a path passed as a string)
 }
 
 // a package-level map variable kept in the world
@@ -119,6 +122,8 @@ type area struct {
 	eqs     map[string]string              // further types compared with == : Go type -> boolean equality
 	shadow  bool                           // `:=` in a nested scope may shadow a name that is never assigned with `=`
 	wderefs map[string]wderef              // pointers to a slice kept in the world: *p reads it, *p = append(*p, x) extends it
+	pairmaps map[string][2]string          // map types kept as the list of (key, value) pairs in iteration order: Go types of key and value
+	ifaces  map[string]string              // interface type of a variable -> the (world-backed) struct type whose translated methods it is called with
 	fatals  map[string]bool                // calls that end the process: the function stops with Panicked (PErrorf <format> 0)
 	wsets   map[string]string              // "<receiver type>.<field>.<field>": g.a.b = e -> (coq e w)
 	fresh   map[string]int                 // function -> index of a pointer argument that every caller in the package must
@@ -535,6 +540,7 @@ type translator struct {
 	sigs  map[string]*signature // functions of the area translated so far
 	dir   string // directory of the file being translated
 	inner int    // > 0 while the body of a nested loop is translated
+	defers []ast.Stmt // bodies of the `defer func() {..}()` statements executed so far, last first
 	pkg   map[string][]*ast.File
 }
 
@@ -626,7 +632,11 @@ func (t *translator) sigOf(c *ast.CallExpr, ev *env) (string, *signature) {
 		// g.M(...) on the world-backed receiver: M was translated as a method of that type
 		if id, ok := f.X.(*ast.Ident); ok {
 			if v, isVar := ev.index[id.Name]; isVar && t.a.wrecv[v.typ] != nil {
-				if sg, isFn := t.sigs[f.Sel.Name]; isFn && sg.recv == strings.TrimPrefix(v.typ, "*") {
+				rn := strings.TrimPrefix(v.typ, "*")
+				if impl, isIface := t.a.ifaces[v.typ]; isIface {
+					rn = impl
+				}
+				if sg, isFn := t.sigs[f.Sel.Name]; isFn && sg.recv == rn {
 					return f.Sel.Name, sg
 				}
 			}
@@ -990,6 +1000,13 @@ func (t *translator) primOf(c *ast.CallExpr, ev *env) (prim, string) {
 				if rt := t.typeOfSafe(f.X, ev); rt != "" {
 					key = rt + "." + f.Sel.Name
 				}
+			}
+		}
+	}
+	if len(c.Args) > 0 {
+		if lit, isLit := c.Args[0].(*ast.BasicLit); isLit && lit.Kind == token.STRING {
+			if p2, ok2 := t.a.prims[key+"#"+lit.Value]; ok2 {
+				return p2, key + "#" + lit.Value
 			}
 		}
 	}
@@ -1528,11 +1545,17 @@ func (t *translator) exprK(e ast.Expr, ev *env, want string, k func(string) stri
 						for _, i := range p.args {
 							args += " " + t.pure(c.Args[i], ev, "")
 						}
+						if p.reads {
+							args += " w"
+						}
 						return "(match " + r + " with None => (Panicked " + t.a.nilPan + ", w) | Some " + d + " => " +
 							k("("+p.coq+" "+d+args+")") + " end)"
 					})
 				}
 			}
+		}
+		if term, done := t.primCallK(c, ev, k); done {
+			return term
 		}
 		t.primOf(c, ev) // names the function if it is not a primitive
 	}
@@ -1791,7 +1814,8 @@ func (t *translator) block(stmts []ast.Stmt, ev *env, lc *loopCtx, top bool, k f
 				lit, isLit = c.Args[0].(*ast.BasicLit)
 			}
 			if !isLit || lit.(*ast.BasicLit).Kind != token.STRING {
-				unsup(c, "%s whose format is not a string literal", exprKey(c.Fun))
+				// logx.Fatal(err): the callee stands for the message
+				return "(Panicked (PErrorf \"" + exprKey(c.Fun) + "\"%string 0%nat), w)"
 			}
 			return "(Panicked (PErrorf " + t.pure(lit, ev, "string") + " 0%nat), w)"
 		}
@@ -1805,6 +1829,13 @@ func (t *translator) block(stmts []ast.Stmt, ev *env, lc *loopCtx, top bool, k f
 		p, key := t.primOf(c, ev)
 		if !p.world {
 			unsup(c, "call of %s as a statement", key)
+		}
+		for _, i := range p.args {
+			if i < len(c.Args) && t.mayPanic(c.Args[i], ev) {
+				if term, done := t.primCallK(c, ev, func(string) string { return cont(ev) }); done {
+					return term
+				}
+			}
 		}
 		call := p.coq + t.primArgs(c, p, ev) + " w"
 		if len(p.results) == 0 {
@@ -1858,9 +1889,13 @@ func (t *translator) block(stmts []ast.Stmt, ev *env, lc *loopCtx, top bool, k f
 		case *ast.IfStmt:
 			els = []ast.Stmt{e}
 		}
+		defersHere := t.defers
 		mk := func(after func(*env) string) string {
-			thenT := t.block(x.Body.List, ev.nest(), lc, false, func(*env) string { return after(ev) })
-			elseT := t.block(els, ev.nest(), lc, false, func(*env) string { return after(ev) })
+			later := t.defers
+			t.defers = defersHere
+			thenT := t.block(x.Body.List, ev.nest(), lc, false, func(*env) string { t.defers = later; r := after(ev); t.defers = defersHere; return r })
+			elseT := t.block(els, ev.nest(), lc, false, func(*env) string { t.defers = later; r := after(ev); t.defers = defersHere; return r })
+			t.defers = later
 			if !t.mayPanic(x.Cond, ev) {
 				return "(if " + t.pure(x.Cond, ev, "bool") + "\n then " + thenT + "\n else " + elseT + ")"
 			}
@@ -1880,6 +1915,9 @@ func (t *translator) block(stmts []ast.Stmt, ev *env, lc *loopCtx, top bool, k f
 			mk(func(*env) string { return j + names(as) + " w" }) + ")"
 	case *ast.SwitchStmt:
 		return t.block(append([]ast.Stmt{t.switchAsIf(x)}, rest...), ev, lc, top, k)
+	case *ast.DeferStmt:
+		t.deferStmt(x, top && lc == nil)
+		return cont(ev)
 	case *ast.ForStmt:
 		if !top || lc != nil {
 			unsup(x, "loop that is not at the top level of the function body")
@@ -1923,14 +1961,21 @@ func (t *translator) returnStmt(x *ast.ReturnStmt, ev *env) string {
 	if len(x.Results) != len(t.ret) {
 		unsup(x, "return with %d values in a function with %d results", len(x.Results), len(t.ret))
 	}
+	if len(t.defers) > 0 {
+		for _, r := range x.Results {
+			if t.readsWorld(r, ev) {
+				unsup(r, "result that reads the world in a function with deferred calls")
+			}
+		}
+	}
 	if len(x.Results) == 0 {
-		return t.returned(nil)
+		return t.withDefers(ev, func() string { return t.returned(nil) })
 	}
 	terms := make([]string, len(x.Results))
 	var build func(i int) string
 	build = func(i int) string {
 		if i == len(x.Results) {
-			return t.returned(terms)
+			return t.withDefers(ev, func() string { return t.returned(terms) })
 		}
 		return t.exprK(x.Results[i], ev, t.ret[i], func(s string) string {
 			terms[i] = s
@@ -2217,6 +2262,9 @@ func (t *translator) assign(x *ast.AssignStmt, ev *env, cont func(*env) string) 
 			if id, isId := c.Fun.(*ast.Ident); isId && id.Name == "make" {
 				isPureFn = true
 			}
+			if k := exprKey(c.Fun); k == "fmt.Sprintf" || (k == "fmt.Errorf" && t.a.errorf != "") {
+				isPureFn = true
+			}
 			argsPanic := false
 			for _, a := range c.Args {
 				if t.mayPanic(a, ev) {
@@ -2243,6 +2291,9 @@ func (t *translator) assign(x *ast.AssignStmt, ev *env, cont func(*env) string) 
 				call := p.coq + t.primArgs(c, p, ev)
 				if p.world {
 					return "(let '(" + pat + ", w) := " + call + " w in\n" + cont(e2) + ")"
+				}
+				if p.reads {
+					return "(let '" + pat + " := " + call + " w in\n" + cont(e2) + ")"
 				}
 				if define && len(lhs) == 1 && lhs[0] != "_" && !reuse[lhs[0]] && t.immutable(lhs[0], c, ev) {
 					// a pure primitive of values that never change: the local stands for the call
@@ -2459,7 +2510,9 @@ func (t *translator) rangeStmt(x *ast.RangeStmt, rest []ast.Stmt, ev *env, k fun
 	if x.Tok != token.DEFINE {
 		unsup(x, "range loop that assigns to existing variables")
 	}
-	if kid, ok := x.Key.(*ast.Ident); ok && kid.Name != "_" {
+	// for k, v := range m over a map kept as the list of its (key, value) pairs in iteration order
+	pm, isPairs := t.a.pairmaps[t.typeOfSafe(x.X, ev)]
+	if kid, ok := x.Key.(*ast.Ident); ok && kid.Name != "_" && !isPairs {
 		return t.rangeIndexStmt(x, rest, ev, k)
 	}
 	if x.Value == nil {
@@ -2477,14 +2530,32 @@ func (t *translator) rangeStmt(x *ast.RangeStmt, rest []ast.Stmt, ev *env, k fun
 		unsup(x.X, "ranged expression that can panic")
 	}
 	xt := t.typeOf(x.X, ev)
-	if !strings.HasPrefix(xt, "[]") {
-		unsup(x.X, "range over a %s", xt)
+	elemT := ""
+	kname := ""
+	if isPairs {
+		kid, isId := x.Key.(*ast.Ident)
+		if !isId || kid.Name == "_" {
+			unsup(x, "range over a map without its key")
+		}
+		kname = checkName(kid)
+		if _, dup := ev.index[kname]; dup {
+			unsup(kid, "loop variable %s shadows another variable", kname)
+		}
+		elemT = pm[1]
+	} else {
+		if !strings.HasPrefix(xt, "[]") {
+			unsup(x.X, "range over a %s", xt)
+		}
+		elemT = xt[2:]
 	}
 	evVar := ev.nest()
-	evVar.add(vname, xt[2:], 1)
+	evVar.add(vname, elemT, 1)
+	if isPairs {
+		evVar.add(kname, pm[0], 1)
+	}
 	var carried []*variable
 	for _, v := range assigned(x.Body.List, evVar) {
-		if v.name != vname {
+		if v.name != vname && v.name != kname {
 			carried = append(carried, v)
 		}
 	}
@@ -2514,19 +2585,28 @@ func (t *translator) rangeStmt(x *ast.RangeStmt, rest []ast.Stmt, ev *env, k fun
 	}
 	fixed := append(append([]*variable{}, t.pars...), locals...)
 	saveJ := t.nJoin
+	defersHere := t.defers // a return in the loop body runs the deferred calls registered before the loop only
 	afterBody := t.block(rest, ev, nil, true, k)
+	defersLater := t.defers
+	t.defers = defersHere
+	defer func() { t.defers = defersLater }()
 	t.emit(afterName, "Definition "+afterName+t.idParams()+t.params(fixed)+t.params(carried)+" (w : "+t.worldT()+")\n  : "+t.resType()+" :=\n"+afterBody+".")
 	t.nJoin = saveJ
 	callAfter := func(*env) string { return afterName + t.idNames() + names(fixed) + names(carried) + " w" }
 	evBody := ev.nest()
-	evBody.add(vname, xt[2:], 1)
+	evBody.add(vname, elemT, 1)
+	pat := vname
+	if isPairs {
+		evBody.add(kname, pm[0], 1)
+		pat = "(" + kname + ", " + vname + ")"
+	}
 	lc := &loopCtx{
 		next: func(*env) string { return loopName + t.idNames() + names(fixed) + " rest'" + names(carried) + " w" },
 		exit: callAfter,
 	}
 	bodyT := t.block(x.Body.List, evBody.clone(), lc, false, func(*env) string { return lc.next(nil) })
 	t.emit(loopName, "Fixpoint "+loopName+t.idParams()+t.params(fixed)+" (xs' : "+t.coqType(x, xt)+")"+t.params(carried)+" (w : "+t.worldT()+") {struct xs'}\n  : "+t.resType()+" :=\n"+
-		"  match xs' with\n  | nil => "+callAfter(nil)+"\n  | cons "+vname+" rest' =>\n"+bodyT+"\n  end.")
+		"  match xs' with\n  | nil => "+callAfter(nil)+"\n  | cons "+pat+" rest' =>\n"+bodyT+"\n  end.")
 	return loopName + t.idNames() + names(fixed) + " " + t.pure(x.X, ev, xt) + names(carried) + " w"
 }
 
@@ -2713,7 +2793,11 @@ func (t *translator) fuelLoop(l *fuelLoop, carried []*variable, rest []ast.Stmt,
 	}
 	// after the loop
 	saveJ := t.nJoin
+	defersHere := t.defers // a return in the loop body runs the deferred calls registered before the loop only
 	afterBody := t.block(rest, ev, nil, true, k)
+	defersLater := t.defers
+	t.defers = defersHere
+	defer func() { t.defers = defersLater }()
 	t.emit(afterName, "Definition "+afterName+t.idParams()+t.params(fixed)+t.params(carried)+" (w : "+t.worldT()+")\n  : "+t.resType()+" :=\n"+afterBody+".")
 	t.nJoin = saveJ
 	callAfter := func(*env) string { return afterName + t.idNames() + names(fixed) + names(carried) + " w" }
@@ -2917,13 +3001,17 @@ func (t *translator) function(fd *ast.FuncDecl, spec fnSpec) {
 			return
 		}
 		for _, f := range fl.List {
-			typ := typeString(f.Type)
+			declared := typeString(f.Type)
 			if len(f.Names) == 0 {
 				unsup(f, "unnamed parameter")
 			}
 			for _, n := range f.Names {
 				if n.Name == "_" {
 					continue
+				}
+				typ := declared
+				if o, isO := spec.ptypes[n.Name]; isO {
+					typ = o
 				}
 				name := checkName(n)
 				if t.erased(typ) {
@@ -2950,6 +3038,10 @@ func (t *translator) function(fd *ast.FuncDecl, spec fnSpec) {
 	}
 	addParams(fd.Type.Params)
 	body := fd.Body.List
+	if spec.from != "" {
+		body = t.tailFrom(fd, spec, ev)
+	}
+	t.defers = nil
 	results := fd.Type.Results
 	var prefix []ast.Stmt
 	for {
@@ -3082,9 +3174,9 @@ func (t *translator) function(fd *ast.FuncDecl, spec fnSpec) {
 			return true
 		})
 	}
-	end := func(*env) string {
+	end := func(e2 *env) string {
 		if len(t.ret) == 0 {
-			return t.returned(nil)
+			return t.withDefers(e2, func() string { return t.returned(nil) })
 		}
 		return "(OutOfFuel, w)" // unreachable: Go rejects a missing return
 	}
